@@ -513,8 +513,27 @@ func ChangeOne(c Cfg, r *lib.Rand) (Cfg, string) {
 func (g *Gen) Restart(depthA, depthB int) (Cfg, string, []string, []string) {
 	g.sv = NewServer(g.C)
 	g.sv.Shared = make([]byte, 1514)
+	// expiry script: A acquires, its expiry is moved to e0 = now+off0 and written to the file by B's ACK,
+	// then A renews (e1 = now+4h, written by that ACK); after the restart MinuteTicker runs before e0,
+	// between e0 and e1 or after e1, and A renews / a third client asks for A's address, in both orders
+	expiry := g.R.Chance(40)
+	var idA, idB, idC *ident
+	if expiry {
+		p := []int{0, 3, 6} // three identities on three MACs
+		idA, idB, idC = g.ids[p[0]], g.ids[p[1]], g.ids[p[2]]
+		if len(g.ids) < 7 {
+			idA, idB, idC = g.ids[0], g.ids[1], g.ids[2]
+		}
+		off0 := g.R.Pick(600, 1800)
+		g.queue = append(g.queue,
+			func() string { return g.discover(idA, true, nil) }, func() string { return g.selectOfferDev(idA, false) },
+			func() string { return "E," + cidTok(idA, g.macs) + "," + strconv.Itoa(off0) },
+			func() string { return g.discover(idB, true, nil) }, func() string { return g.selectOfferDev(idB, false) },
+			func() string { m := g.msg('R', idA); m.Ciaddr = idA.ack; return m.Token() })
+		depthA = 6
+	}
 	// run 1: mostly lease acquisition so that there is something to restore
-	for i := 0; i < 3; i++ {
+	for i := 0; i < 3 && !expiry; i++ {
 		id := g.ids[g.R.Intn(len(g.ids))]
 		g.queue = append(g.queue, func() string { return g.discover(id, true, nil) }, func() string { return g.selectOfferDev(id, false) })
 	}
@@ -522,13 +541,31 @@ func (g *Gen) Restart(depthA, depthB int) (Cfg, string, []string, []string) {
 	g.queue = nil
 	file := g.sv.CloseKeep()
 	cB, what := ChangeOne(g.C, g.R)
+	if expiry { // same file, same subnets: the table is restored
+		cB, what = g.C, "nothing-expiry-script"
+		if g.R.Bool() {
+			cB.Mode, what = g.C.Mode%3+1, "mode-expiry-script"
+		}
+	}
 	g.C = cB
 	g.alpha = append(g.alpha, cB.HostIP, cB.RouterIP)
 	g.sv = NewServerFile(cB, file)
 	g.sv.Shared = make([]byte, 1514)
 	defer g.sv.Close()
+	if expiry {
+		renew := func() string { m := g.msg('R', idA); m.Ciaddr = idA.ack; return m.Token() }
+		ask := []func() string{
+			func() string { return g.discover(idC, true, p32(idA.ack)) },
+			func() string { return g.selectOfferDev(idC, false) }}
+		g.queue = append(g.queue, func() string { return "T," + strconv.Itoa(g.R.Pick(300, 3600, 3600, 15000)) })
+		if g.R.Bool() {
+			g.queue = append(append(g.queue, renew), ask...)
+		} else {
+			g.queue = append(append(g.queue, ask...), renew)
+		}
+	}
 	// run 2 begins with the old clients coming back (renew / reboot / discover), captured or not
-	for i := 0; i < 2; i++ {
+	for i := 0; i < 2 && !expiry; i++ {
 		id := g.ids[g.R.Intn(len(g.ids))]
 		if g.R.Chance(40) {
 			g.queue = append(g.queue, func() string { return "C," + hxmac(g.macs[id.mac]) })
